@@ -426,14 +426,28 @@ def parallels_chain(chk: Check):
     rel = "disk/hdd.py"
     cctx = chk.func(rel, "Descriptor.get_snapshot_chain")
     outs = func_outcomes(chk, cctx)
-    # chain starts with the requested shot and appends parents
+    # chain starts with the requested shot and appends parents (term-based: local names do not matter)
     loop = loops_of(cctx)
-    apps = [n for n in ast.walk(cctx.func) if isinstance(n, ast.Call) and isinstance(n.func, ast.Attribute) and n.func.attr == "append"]
-    ok = bool(loop) and bool(apps) and ast.unparse(apps[0].args[0]).endswith(".guid")
-    first = [n for n in ast.walk(cctx.func) if isinstance(n, ast.Assign) and isinstance(n.value, ast.List)]
-    ok = ok and bool(first) and len(first[0].value.elts) == 1 and ast.unparse(first[0].value.elts[0]).endswith(".guid")
-    adv = [n for n in ast.walk(loop[0]) if isinstance(n, ast.Assign) and "find_shot" in ast.unparse(n.value)] if loop else []
-    ok = ok and bool(adv) and ast.unparse(adv[0].value).endswith("(shot.parent)")
+    dk = chk.prog.cls(rel, "Descriptor").key
+    G = ("p", cctx.qual, 1)
+    ok = bool(loop)
+    if ok:
+        car = loop_carried(chk, cctx, loop[0])
+        shots = [(n, i) for n, i in car.items() if i["phi"][0] == "phi" and i["phi"][3][0] == "call" and i["phi"][3][1] == ".find_shot" and i["phi"][3][2][-1] == G]
+        ok = len(shots) == 1
+        if ok:
+            SH = shots[0][1]["phi"]
+            # next shot = find_shot(current.parent)
+            ok = all(nx[0] == "call" and nx[1] == ".find_shot" and nx[2][-1] == ("attr", SH, "parent") for _, nx in shots[0][1]["next"])
+            # the loop continues while the parent is not the null GUID
+            test = R.expr(cctx, loop[0].test, cctx.cfg.node_of[loop[0]])
+            ok = ok and test[0] == "cmp" and test[1] == "!=" and test[2] == ("attr", SH, "parent") and S.is_const(test[3]) and str(test[3][1]) == "00000000-0000-0000-0000-000000000000"
+            # chain = [first.guid] and every visited shot's guid is appended
+            lists = [n for n in _own_nodes(cctx.func) if isinstance(n, ast.Assign) and isinstance(n.value, ast.List) and len(n.value.elts) == 1]
+            ok = ok and bool(lists) and R.expr(cctx, lists[0].value.elts[0], cctx.cfg.node_of[lists[0]]) == ("attr", SH[3], "guid")
+            apps = [n for n in ast.walk(loop[0]) if isinstance(n, ast.Call) and isinstance(n.func, ast.Attribute) and n.func.attr == "append"]
+            ok = ok and bool(apps) and all(R.expr(cctx, a.args[0])[0] == "attr" and R.expr(cctx, a.args[0])[2] == "guid" and
+                                          R.expr(cctx, a.args[0])[1][0] == "call" and R.expr(cctx, a.args[0])[1][1] == ".find_shot" for a in apps)
     chk.decide(ok, "K-PROV", "parallels:chain-child-to-base", cctx.func, "the chain lists the requested snapshot first and then each parent down to the base")
     octx = chk.func(rel, "HDD.open")
     hk = chk.prog.cls(rel, "HDD").key
